@@ -196,6 +196,9 @@ pub struct Deviation {
     pub solve_eval: Option<usize>,
     /// add a constant to this evaluation
     pub shift_eval: Option<(usize, F)>,
+    /// feed THESE public inputs to the transcript while proving with the real
+    /// ones (a prover that hashes another statement than it proves)
+    pub transcript_pi: Option<Vec<F>>,
 }
 
 pub struct ProofOut {
@@ -306,7 +309,9 @@ pub fn prove(
         cm(&wire_polys[2])?,
         cm(&wire_polys[3])?,
     ];
-    let pi_vals: Vec<F> = pi.iter().map(|(_, v)| *v).collect();
+    let pi_true: Vec<F> = pi.iter().map(|(_, v)| *v).collect();
+    // what the transcript absorbs (the claimed statement)
+    let pi_vals: Vec<F> = dev.transcript_pi.clone().unwrap_or_else(|| pi_true.clone());
     let mut dense_pi = vec![F::zero(); n];
     for (r, v) in pi {
         if *r < n {
@@ -469,7 +474,7 @@ pub fn prove(
     let z_n = naive::pow(zc, n as u64);
     let z_h = z_n - F::one();
     let l1 = z_h * (n_f * (zc - F::one())).invert().ok_or("challenge in domain")?;
-    let pi_z = refver::pi_eval_dense(log_n, &keys.rv.pi_rows, &pi_vals, &zc, &z_h)
+    let pi_z = refver::pi_eval_dense(log_n, &keys.rv.pi_rows, &pi_true, &zc, &z_h)
         .ok_or("challenge in domain")?;
     let lin = |e: &[F; 15]| -> Vec<F> {
         let rvv = RowVals {
